@@ -487,7 +487,8 @@ def sibling(probe):
 
 
 def customize_case(hide: bool, hide_line: bool, prune: bool, elab: int, form: int) -> Optional[str]:
-    """elab: 0 absent, 1 returns None, 2 returns a replacement (a pool-free fresh generator).
+    """elab: 0 absent, 1 returns None, 2 returns a replacement (a pool-free fresh generator),
+    3 returns PRUNE, 4 returns [] (an empty sequence: remove the callees).
     form: 0 direct customize(target, ...), 1 decorator @customize(...)."""
     ns: Dict[str, Any] = {"__name__": "verif_cust"}
     exec(compile(_CUST_SRC, "<cust>", "exec"), ns)
@@ -502,6 +503,10 @@ def customize_case(hide: bool, hide_line: bool, prune: bool, elab: int, form: in
 
     def elab_fn(frame: Any, next_inner: Any) -> Any:
         calls.append(frame)
+        if elab == 3:
+            return stackscope.PRUNE
+        if elab == 4:
+            return []
         return rg if elab == 2 else None
 
     kw: Dict[str, Any] = {}
@@ -537,6 +542,9 @@ def customize_case(hide: bool, hide_line: bool, prune: bool, elab: int, form: in
     if elab == 2:
         if names != ["target", "repl_gen"]:
             return f"elaborate replacement not honoured: {names}"
+    elif elab in (3, 4):
+        if names != ["target"]:
+            return f"elaborate returned PRUNE / an empty sequence but callees are present: {names}"
     elif prune:
         if names != ["target"]:
             return f"prune=True but callees present: {names}"
@@ -557,7 +565,7 @@ def _s4(sh: Dict[str, Any]) -> Dict[str, Any]:
 
     def harness(e: Engine) -> None:
         hide, hl, pr = e.flag("hide"), e.flag("hide_line"), e.flag("prune")
-        elab = e.choice("elaborate", 3)
+        elab = e.choice("elaborate", 5)
         form = e.choice("form", 2)
         why = customize_case(hide, hl, pr, elab, form)
         if len(samples) < 1:
@@ -580,7 +588,7 @@ def run(rep: Any, tier: str, seed: int) -> None:
     rep.bounds = {"IdentityDict.ops": f"sequences of {L1} over {len(OPS)} operations x 3 keys (two equal-but-distinct unhashable), values unconstrained z3 Ints",
                   "dispatch.registrations": "0..3 (4 thorough) over 3 code objects x 4 hooks, direct and decorator register forms, via code and via real frames",
                   "towers": f"depth 0..{3 if tier == 'quick' else 4} over {LAYERS}", "nested paths": len(NEST_PATHS),
-                  "customize": "2^3 flags x 3 elaborate kinds x 2 forms"}
+                  "customize": "2^3 flags x 5 elaborate kinds (absent, None, replacement, PRUNE, []) x 2 forms"}
     rep.outside = ["towers deeper than the bound", "callables implemented in C", "PyPy"]
     res = par.run_shards("harness.c12", "_s1", [{"len": L1, "first": f} for f in range(len(OPS))])
     for c in par.fold(rep, OB1, res):
